@@ -363,8 +363,17 @@ def pick_sources(rng, m, k=None):
         mag = 10 ** rng.uniform(-1, 1.5)
         ph = rng.uniform(-math.pi, math.pi) if rng.random() < 0.7 else 0.0
         v = complex(mag * math.cos(ph), mag * math.sin(ph))
-        m.register_source(Excitation(v), p)
-        res.append((p, v))
+        form = int(mag * 1e6) % 4
+        if form == 0:
+            # magnitude / phase in degrees, the other constructor form
+            s = Excitation(mag, math.degrees(ph))
+        elif form == 1:
+            # the same voltage written with a negative magnitude and the phase turned by half a turn
+            s = Excitation(-mag, math.degrees(ph) + 180.0)
+        else:
+            s = Excitation(v)
+        m.register_source(s, p)
+        res.append((p, complex(s.voltage)))
     return res
 
 
